@@ -44,7 +44,21 @@ fn create_symlink(sri: Integrity, cache: &PathBuf, target: &PathBuf) -> Result<I
                 cpath.parent().unwrap().display()
             )
         })?;
-    if let Err(e) = symlink_file(target, &cpath) {
+    // The link lives deep inside the cache, so a relative target would be
+    // resolved against the link's directory rather than the caller's.
+    let target = if target.is_absolute() {
+        target.clone()
+    } else {
+        std::env::current_dir()
+            .with_context(|| {
+                format!(
+                    "Failed to resolve relative link target {}",
+                    target.display()
+                )
+            })?
+            .join(target)
+    };
+    if let Err(e) = symlink_file(&target, &cpath) {
         // If symlinking fails because there's *already* a file at the desired
         // destination, that is ok -- all the cache should care about is that
         // there is **some** valid file associated with the computed integrity.
